@@ -3,17 +3,18 @@
 (* GEN_FAMILY and writes it to GEN_OUT as a JSON array.                     *)
 EXTENDS Gen_Games, Randomization
 
+Pick(k, S) == IF k >= Cardinality(S) THEN S ELSE RandomSubset(k, S)
 DescribeAll(fam, S) == LET q == SetToSeq(S) IN [i \in DOMAIN q |-> TLCEval(Describe(fam, q[i]))]
 
 Games ==
     CASE Family = "rand" -> RandFamily
       [] Family = "stop" -> StopFamily
-      [] Family = "dead" -> DescribeAll("dead", RandomSubset(K, DeadGames))
+      [] Family = "dead" -> DescribeAll("dead", Pick(K, DeadGames))
       [] Family = "deadall" -> DescribeAll("dead", DeadGames)
       [] Family = "hist" -> HistFamily
       [] Family = "perm" -> PermFamily
-      [] Family = "tiny" -> DescribeAll("tiny", RandomSubset(K, TinyGames))
-      [] Family = "ties" -> DescribeAll("ties", RandomSubset(K, TieGames))
+      [] Family = "tiny" -> DescribeAll("tiny", Pick(K, TinyGames) \cup Pick(K, TinyChains))
+      [] Family = "ties" -> DescribeAll("ties", Pick(K, TieGames))
       [] Family = "tiesall" -> DescribeAll("ties", TieGames)
 
 ASSUME JsonSerialize(Out, Games)
